@@ -510,9 +510,12 @@ func padVersions(versions []string, prereleasePatterns []string, padding padding
 	}
 
 	parsedLatest, ok := parseSemver(latestRelease)
-	if !ok {
-		// "can't happen", since the latest release version should always be canonical.
-		panic(fmt.Sprintf("unable to parse latest release version %q", latestRelease))
+	const maxComponent = 1 << 30
+	if !ok || parsedLatest.major > maxComponent || parsedLatest.minor > maxComponent || parsedLatest.patch > maxComponent {
+		// Semantic versions may have numeric components of any length. If
+		// the latest release does not fit, or leaves no room to count up
+		// from it, there is nothing sensible to pad.
+		return versions
 	}
 
 	// Pad the latest version only.
